@@ -31,6 +31,7 @@ type Engine struct {
 	// theories: contracts for functions outside the repo (assumed)
 	ext map[string]*Contract
 	ghosts map[string]*GhostDecl
+	guarded map[string]string
 	needPrivate map[privKey]bool
 	sweepCtrs map[*ssa.Function]*Contract
 	writtenKeys map[string]bool // struct-field heap keys stored to through a pointer that is not a fresh allocation of the storing function
